@@ -733,6 +733,37 @@ func ruleBump(c *Ctx) {
 		}
 	}
 	c.census("C13-BUMP", "functions that bump a per-document version", len(bump), 1)
+	// wrappers: functions that hand the bumped version on to their caller in every result they return (a job
+	// record built around the new version); their call sites are judged like those of the bump itself
+	for changed, round := true, 0; changed && round < 3; round++ {
+		changed = false
+		for _, f := range ci.funcs {
+			if bump[f] || f.Signature.Results().Len() != 1 {
+				continue
+			}
+			nRet, all := 0, true
+			for _, b := range f.Blocks {
+				r, ok := b.Instrs[len(b.Instrs)-1].(*ssa.Return)
+				if !ok {
+					continue
+				}
+				nRet++
+				has := false
+				for v := range backSlice(unspillResult(r.Results[0], b)) {
+					if call, ok := v.(*ssa.Call); ok && call.Parent() == f && bump[call.Call.StaticCallee()] {
+						has = true
+					}
+				}
+				if !has {
+					all = false
+				}
+			}
+			if nRet > 0 && all {
+				bump[f] = true
+				changed = true
+			}
+		}
+	}
 	n := 0
 	for _, f := range ci.funcs {
 		for _, b := range f.Blocks {
@@ -746,6 +777,14 @@ func ruleBump(c *Ctx) {
 				}
 				n++
 				receives := func(x ssa.Instruction) bool {
+					if r, isRet := x.(*ssa.Return); isRet && bump[f] {
+						for _, rv := range r.Results {
+							if backSlice(unspillResult(rv, r.Block()))[call] {
+								return true // handed on to the caller, where the same obligation applies
+							}
+						}
+						return false
+					}
 					ci2, ok := x.(ssa.CallInstruction)
 					if !ok || x == ssa.Instruction(call) {
 						return false
